@@ -358,9 +358,11 @@ def run(ctx):
     b0 = ("bv", 0)
     want = ("map", T.phi(T.cmp("Eq", b0, T.ZERO), T.num(1), b0), b0, T.call("numpy.sign", (T.call(sr.qualname, (SELF, T.sym(gs.params[1]))),)), T.TRUE)
     rules.decide_equal(ctx, "FORM", f"{gs.qualname} / FORM / sign of the reference segment (zero -> +1)", ctx.where(gs), sgs.ret(), want, "get_versor_sign")
-    uses = [e for e in st.calls() if e.target == gs.qualname]
-    ctx.check(bool(uses) and all(e.args and e.args[0] == vidp for e in uses), "ALIGN", f"{tv.qualname} / ALIGN / orientation reference taken at the same junction",
-              where, "get_versor_sign(vid)", "the orientation reference is not taken at the junction the vector is computed for")
+    uses = [e for e in st.calls() if e.target in (gs.qualname, sr.qualname)]
+    if not uses:
+        raise AnalysisError(f"{where}: the orientation step uses neither get_versor_sign nor get_straight_edge_versor_from_vid - re-bind the anchor")
+    ctx.check(all(e.args and e.args[0] == vidp for e in uses), "ALIGN", f"{tv.qualname} / ALIGN / orientation reference taken at the same junction",
+              where, "reference segment / its signs taken at vid", "the orientation reference is not taken at the junction the vector is computed for")
 
     ctx.clause("unit length")
     uv = repo.func(f"{BE}.get_versor_from_vertex")
@@ -458,6 +460,14 @@ PINNED = [
     ("centre returned as (y, x)", _V, "return center[0], center[1]", "return center[1], center[0]"),
 ]
 PRESERVING = [
+    ("repair of F6: whole-vector orientation by the sign of the projection on the chord", _E, """        correct_sign = self.get_versor_sign(vid)
+        if np.any(np.sign(vector) != correct_sign):
+            correction = correct_sign * np.sign(vector)
+            vector = vector * correction
+        return vector""", """        chord = np.array(self.get_straight_edge_versor_from_vid(vid))
+        if np.dot(vector, chord) < 0:
+            vector = -vector
+        return vector"""),
     ("keep-test with abs sums", _P, "non_zero = np.count_nonzero((row_x != 0) | (row_y != 0))", "non_zero = np.count_nonzero(np.abs(row_x) + np.abs(row_y))"),
     ("tangent with distributed minus", _E, "vector = np.array((- (vobject.y - yc), (vobject.x - xc)))", "vector = np.array((yc - vobject.y, vobject.x - xc))"),
     ("versor in two steps", _E, "versor = vector / np.linalg.norm(vector)", "length = np.linalg.norm(vector)\n        versor = vector / length"),
